@@ -4,6 +4,7 @@ import (
 	"go/constant"
 	"go/token"
 	"go/types"
+	"sort"
 
 	"golang.org/x/tools/go/ssa"
 )
@@ -751,3 +752,5 @@ func topFunc(f *ssa.Function) *ssa.Function {
 	}
 	return f
 }
+
+func sortStrings(s []string) { sort.Strings(s) }
